@@ -7,7 +7,7 @@
         component does -- refuted as an identity, see [traceless_branch_refuted]).        *)
 From Coq Require Import ZArith Reals List Lra Lia Bool Setoid Morphisms.
 From FF Require Import Base.Ops Inst.RInst Base.RAlg Base.FMat Model.Numeric Model.Decay Model.Cumulant
-     Proofs.Trapz Proofs.Decay.
+     Proofs.Trapz Proofs.Decay Proofs.DecayPrefix.
 Import ListNotations.
 Local Open Scope R_scope.
 
@@ -75,7 +75,7 @@ Proof. intros. rewrite Honb by auto. unfold delta. destruct (Nat.eqb k l); refle
 
 (* traces_diag_kl = d delta_kl - tr C_k tr C_l  (a real number) *)
 Definition tdr (k l : nat) : R := INR d * delta k l - trb k * trb l.
-Lemma traces_diag_value k l : (k < n)%nat -> (l < n)%nat -> traces_diag RO d P n k l = (tdr k l, 0).
+Lemma traces_diag_value k l : (k < n)%nat -> (l < n)%nat -> traces_diag d P n k l = (tdr k l, 0).
 Proof.
   intros Hk Hl. unfold traces_diag.
   rewrite (csumn_ext n _ (fun i => T4 d Cb k l i i)) by (intros; apply four_trace_T4; auto).
@@ -84,7 +84,7 @@ Proof.
   rewrite onb_delta, !tC_real by auto. unfold tdr, cnat. apply c_eq; csimp; ring.
 Qed.
 Lemma nth_traces_diag_arr k l : (k < n)%nat -> (l < n)%nat ->
-  nth l (nth k (traces_diag_arr RO d P n) []) 0c = (tdr k l, 0).
+  nth l (nth k (traces_diag_arr d P n) []) 0c = (tdr k l, 0).
 Proof. intros. unfold traces_diag_arr. rewrite !nth_build by auto. apply traces_diag_value; auto. Qed.
 
 (* ---------- trace of the first-order cumulant function (general branch) ---------- *)
@@ -168,13 +168,158 @@ Let gint i j k l o : R :=
 Lemma Gamma_gint i j k l : Gamma Bm Bm idx sp no omega i j k l = trapz_w no (gint i j k l) omega / (2 * PI).
 Proof. reflexivity. Qed.
 
-(* traceless branch: (1/d) sum_k Gamma_kk, INCLUDING the element proportional to the identity *)
-Theorem infidelity_traceless_entry i j :
+(* ---------- the infidelity of the package (after fix 2891db3): rank-one corrected filter function ---------- *)
+(* entry of the basis-trace list *)
+Lemma nth_basis_traces k : (k < n)%nat -> nth k (basis_traces RO d basis nk) 0c = (trb k, 0).
+Proof. intros Hk. unfold basis_traces. rewrite Hnk, nth_build by auto. unfold btrace. rewrite mtrace_ftr. apply (tC_real k Hk). Qed.
+
+(* for ANY pair of control matrices (L, R): (L, R) = (B, B) for which='total', (B_g, B_h) for 'correlations' *)
+Section PairLR.
+Variables (Lm Rm : A3r).
+Let GamLR i j : RMr := rmbuild nk nk (fun k l => Gamma Lm Rm idx sp no omega i j k l).
+Lemma rmget_GamLR i j k l : (k < n)%nat -> (l < n)%nat -> rmget RO (GamLR i j) k l = Gamma Lm Rm idx sp no omega i j k l.
+Proof. intros. unfold GamLR, rmget, rmbuild. rewrite Hnk, !nth_build by auto. reflexivity. Qed.
+Let gintLR i j k l o : R :=
+  fst (cmul' (cmul' (cconj' (a3get RO Lm (sel idx i) k o)) (spec_at RO sp i j o)) (a3get RO Rm (sel idx j) l o)).
+
+(* the integrand of the corrected filter function: sum_k y_kk - (A S B)/d with real basis traces *)
+Lemma corrected_integrand_form i j o : (sel idx i < na)%nat -> (sel idx j < na)%nat -> (o < no)%nat ->
+  integrand_fid RO (infid_ff_corrected RO d na nk no Lm Rm (basis_traces RO d basis nk)) idx sp i j o =
+  fst (csub' (csumn' n (fun k => cmul' (cmul' (cconj' (a3get RO Lm (sel idx i) k o)) (spec_at RO sp i j o)) (a3get RO Rm (sel idx j) k o)))
+             (cdivr RO (cmul' (cmul' (csumn' n (fun k => cmul' (trb k, 0) (cconj' (a3get RO Lm (sel idx i) k o)))) (spec_at RO sp i j o))
+                              (csumn' n (fun l => cmul' (trb l, 0) (a3get RO Rm (sel idx j) l o)))) (INR d))).
+Proof.
+  intros Hi Hj Ho. unfold integrand_fid, infid_ff_corrected.
+  rewrite a3get_a3build by auto. rewrite dnat_INR, Hnk.
+  rewrite (csumn_ext n (fun k => cmul' (nth k (basis_traces RO d basis n) 0c) (cconj' (a3get RO Lm (sel idx i) k o)))
+                       (fun k => cmul' (trb k, 0) (cconj' (a3get RO Lm (sel idx i) k o))))
+    by (intros k Hk; rewrite <- Hnk, nth_basis_traces by auto; reflexivity).
+  rewrite (csumn_ext n (fun l => cmul' (nth l (basis_traces RO d basis n) 0c) (a3get RO Rm (sel idx j) l o))
+                       (fun l => cmul' (trb l, 0) (a3get RO Rm (sel idx j) l o)))
+    by (intros l Hl; rewrite <- Hnk, nth_basis_traces by auto; reflexivity).
+  unfold cre. f_equal.
+  set (S := spec_at RO sp i j o).
+  set (X := csumn' n (fun k => cmul' (cconj' (a3get RO Lm (sel idx i) k o)) (a3get RO Rm (sel idx j) k o))).
+  set (A := csumn' n (fun k => cmul' (trb k, 0) (cconj' (a3get RO Lm (sel idx i) k o)))).
+  set (B := csumn' n (fun l => cmul' (trb l, 0) (a3get RO Rm (sel idx j) l o))).
+  replace (csumn' n (fun k => cmul' (cmul' (cconj' (a3get RO Lm (sel idx i) k o)) S) (a3get RO Rm (sel idx j) k o))) with (cmul' X S)
+    by (unfold X; rewrite <- csumn_mul_r; apply csumn_ext; intros; ring).
+  destruct X, A, B, S. apply c_eq; csimp; unfold Rdiv; ring.
+Qed.
+
+Theorem corrected_entry i j :
   (i < length idx)%nat -> (j < length idx)%nat -> (is_cross sp = false -> i = j) ->
-  nth (lead_pos sp (length idx) i j) (infidelity_total RO d true na nk no Bm basis idx sp omega) 0 =
+  nth (lead_pos sp (length idx) i j)
+      (infid_of_ff RO d (infid_ff_corrected RO d na nk no Lm Rm (basis_traces RO d basis nk)) idx sp no omega) 0 =
+  (INR d * trG (GamLR i j) - GT (GamLR i j)) / (INR d * INR d).
+Proof.
+  intros Hi Hj Hc. rewrite nth_infid_of_ff by auto.
+  assert (Hd0 : INR d <> 0) by (apply not_0_INR; lia).
+  assert (Hpi : 2 * PI <> 0) by (generalize PI_RGT_0; lra).
+  assert (E : INR d * trG (GamLR i j) - GT (GamLR i j) =
+              sumn' n (fun k => sumn' n (fun l => tdr k l * (trapz_w no (gintLR i j k l) omega / (2 * PI))))).
+  { rewrite <- sum_delta. unfold GT. rewrite sumn_sub. apply sumn_ext. intros k Hk.
+    rewrite sumn_sub. apply sumn_ext. intros l Hl.
+    rewrite rmget_GamLR by auto. unfold Gamma. fold (gintLR i j k l). unfold tdr. ring. }
+  rewrite E.
+  rewrite (trapz_w_ext no _ (fun o => sumn' n (fun k => sumn' n (fun l => (tdr k l / INR d) * gintLR i j k l o)))).
+  - rewrite trapz_w_sum.
+    unfold Rdiv. rewrite <- !sumn_mul_r. apply sumn_ext. intros k _.
+    rewrite trapz_w_sum. rewrite <- !sumn_mul_r. apply sumn_ext. intros l _.
+    rewrite trapz_w_scal. field. split; auto. generalize PI_RGT_0; lra.
+  - intros o Ho. unfold integrand_fid, infid_ff_corrected.
+    rewrite a3get_a3build by (auto; apply Hidx; auto).
+    rewrite dnat_INR, Hnk.
+    set (S := spec_at RO sp i j o).
+    (* the rank-one term with real traces *)
+    rewrite (csumn_ext n (fun k => cmul' (nth k (basis_traces RO d basis n) 0c) (cconj' (a3get RO Lm (sel idx i) k o)))
+                         (fun k => cmul' (trb k, 0) (cconj' (a3get RO Lm (sel idx i) k o))))
+      by (intros k Hk; rewrite <- Hnk, nth_basis_traces by auto; reflexivity).
+    rewrite (csumn_ext n (fun l => cmul' (nth l (basis_traces RO d basis n) 0c) (a3get RO Rm (sel idx j) l o))
+                         (fun l => cmul' (trb l, 0) (a3get RO Rm (sel idx j) l o)))
+      by (intros l Hl; rewrite <- Hnk, nth_basis_traces by auto; reflexivity).
+    transitivity (fst (csumn' n (fun k => csumn' n (fun l =>
+        cscal RO (tdr k l / INR d) (cmul' (cmul' (cconj' (a3get RO Lm (sel idx i) k o)) S) (a3get RO Rm (sel idx j) l o)))))).
+    + unfold cre. f_equal.
+      (* sum_kl (delta_kl - t_k t_l / d) conj(L_k) S R_l *)
+      transitivity (csub' (csumn' n (fun k => cmul' (cmul' (cconj' (a3get RO Lm (sel idx i) k o)) S) (a3get RO Rm (sel idx j) k o)))
+                          (cdivr RO (cmul' (cmul' (csumn' n (fun k => cmul' (trb k, 0) (cconj' (a3get RO Lm (sel idx i) k o)))) S)
+                                           (csumn' n (fun l => cmul' (trb l, 0) (a3get RO Rm (sel idx j) l o)))) (INR d))).
+      { set (X := csumn' n (fun k => cmul' (cconj' (a3get RO Lm (sel idx i) k o)) (a3get RO Rm (sel idx j) k o))).
+        set (A := csumn' n (fun k => cmul' (trb k, 0) (cconj' (a3get RO Lm (sel idx i) k o)))).
+        set (B := csumn' n (fun l => cmul' (trb l, 0) (a3get RO Rm (sel idx j) l o))).
+        replace (csumn' n (fun k => cmul' (cmul' (cconj' (a3get RO Lm (sel idx i) k o)) S) (a3get RO Rm (sel idx j) k o))) with (cmul' X S)
+          by (unfold X; rewrite <- csumn_mul_r; apply csumn_ext; intros; ring).
+        destruct X, A, B, S. apply c_eq; csimp; field; auto. }
+      assert (Hdiv : forall z : Cx, cdivr RO z (INR d) = cmul' (/ INR d, 0) z)
+        by (intros [x y]; apply c_eq; csimp; field; auto).
+      set (B := csumn' n (fun l => cmul' (trb l, 0) (a3get RO Rm (sel idx j) l o))).
+      symmetry.
+      rewrite (csumn_ext n _ (fun k => csub' (cmul' (cmul' (cconj' (a3get RO Lm (sel idx i) k o)) S) (a3get RO Rm (sel idx j) k o))
+                 (cmul' (/ INR d, 0) (cmul' (cmul' (cmul' (trb k, 0) (cconj' (a3get RO Lm (sel idx i) k o))) S) B)))).
+      2:{ intros k Hk.
+          rewrite (csumn_ext n _ (fun l => csub'
+             (if Nat.eqb k l then cmul' (cmul' (cconj' (a3get RO Lm (sel idx i) k o)) S) (a3get RO Rm (sel idx j) l o) else 0c)
+             (cmul' (/ INR d, 0) (cmul' (cmul' (cmul' (trb k, 0) (cconj' (a3get RO Lm (sel idx i) k o))) S)
+                                        (cmul' (trb l, 0) (a3get RO Rm (sel idx j) l o)))))).
+          2:{ intros l _. unfold tdr, delta. destruct (Nat.eqb k l); apply c_eq; csimp; field; auto. }
+          rewrite csumn_sub.
+          rewrite (csumn_delta n k (fun l => cmul' (cmul' (cconj' (a3get RO Lm (sel idx i) k o)) S) (a3get RO Rm (sel idx j) l o))) by auto.
+          rewrite csumn_mul_l, csumn_mul_l. reflexivity. }
+      rewrite csumn_sub. f_equal.
+      rewrite csumn_mul_l, Hdiv. f_equal. rewrite csumn_mul_r. f_equal. rewrite csumn_mul_r. reflexivity.
+    + rewrite csumn_re. apply sumn_ext. intros k _. rewrite csumn_re. apply sumn_ext. intros l _.
+      unfold gintLR, S. csimp. reflexivity.
+Qed.
+
+End PairLR.
+
+(* which='total': the infidelity of noise pair (i,j) is (d sum_k Gamma_kk - sum_kl Gamma_kl tr C_k tr C_l)/d^2 *)
+Theorem infidelity_entry i j :
+  (i < length idx)%nat -> (j < length idx)%nat -> (is_cross sp = false -> i = j) ->
+  nth (lead_pos sp (length idx) i j) (infidelity_total RO d na nk no Bm basis idx sp omega) 0 =
+  (INR d * trG (Gam i j) - GT (Gam i j)) / (INR d * INR d).
+Proof. intros. unfold infidelity_total. apply (corrected_entry Bm Bm); auto. Qed.
+
+(* hence: infidelity = - tr K / d^2 with K the cumulant function of the same decay amplitudes,
+   for EVERY complete orthonormal Hermitian basis, traceless or not *)
+Theorem infidelity_is_cumulant_trace i j Dl :
+  (i < length idx)%nat -> (j < length idx)%nat -> (is_cross sp = false -> i = j) ->
+  nth (lead_pos sp (length idx) i j) (infidelity_total RO d na nk no Bm basis idx sp omega) 0 =
+  - sumn' n (fun m => cumulant_general_fn RO n Tr false (Gam i j) Dl m m) / (INR d * INR d).
+Proof.
+  intros. rewrite infidelity_entry by auto. rewrite trace_identity. unfold Rdiv. ring.
+Qed.
+
+(* contraction with d delta_kl - t_k t_l, and the integrand of the corrected filter function *)
+Lemma tdr_contract (cL Rr : nat -> Cx) (S : Cx) :
+  csumn' n (fun k => csumn' n (fun l => cscal RO (tdr k l) (cmul' (cmul' (cL k) S) (Rr l)))) =
+  csub' (cmul' (INR d, 0) (csumn' n (fun k => cmul' (cmul' (cL k) S) (Rr k))))
+        (cmul' (cmul' (csumn' n (fun k => cmul' (trb k, 0) (cL k))) S) (csumn' n (fun l => cmul' (trb l, 0) (Rr l)))).
+Proof.
+  set (B := csumn' n (fun l => cmul' (trb l, 0) (Rr l))).
+  rewrite (csumn_ext n _ (fun k => csub' (cmul' (INR d, 0) (cmul' (cmul' (cL k) S) (Rr k)))
+                                          (cmul' (cmul' (cmul' (trb k, 0) (cL k)) S) B))).
+  2:{ intros k Hk.
+      rewrite (csumn_ext n _ (fun l => csub'
+         (if Nat.eqb k l then cmul' (INR d, 0) (cmul' (cmul' (cL k) S) (Rr l)) else 0c)
+         (cmul' (cmul' (cmul' (trb k, 0) (cL k)) S) (cmul' (trb l, 0) (Rr l))))).
+      2:{ intros l _. unfold tdr, delta. destruct (Nat.eqb k l); apply c_eq; csimp; ring. }
+      rewrite csumn_sub.
+      rewrite (csumn_delta n k (fun l => cmul' (INR d, 0) (cmul' (cmul' (cL k) S) (Rr l)))) by auto.
+      rewrite csumn_mul_l. reflexivity. }
+  rewrite csumn_sub. f_equal. apply csumn_mul_l.
+  rewrite csumn_mul_r. f_equal. rewrite csumn_mul_r. reflexivity.
+Qed.
+
+(* ---------- the pre-fix branches ---------- *)
+(* traceless branch: (1/d) sum_k Gamma_kk, INCLUDING the element proportional to the identity *)
+Theorem infidelity_traceless_prefix_entry i j :
+  (i < length idx)%nat -> (j < length idx)%nat -> (is_cross sp = false -> i = j) ->
+  nth (lead_pos sp (length idx) i j) (infidelity_total_prefix d true na nk no Bm basis idx sp omega) 0 =
   trG (Gam i j) / INR d.
 Proof.
-  intros Hi Hj Hc. unfold infidelity_total. rewrite nth_infid_of_ff by auto.
+  intros Hi Hj Hc. unfold infidelity_total_prefix. rewrite nth_infid_of_ff by auto.
   unfold trG. rewrite (sumn_ext n _ (fun k => trapz_w no (gint i j k k) omega / (2 * PI))).
   2:{ intros k Hk. rewrite rmget_Gam by auto. apply Gamma_gint. }
   replace (sumn' n (fun k => trapz_w no (gint i j k k) omega / (2 * PI)))
@@ -191,12 +336,12 @@ Proof.
 Qed.
 
 (* non-traceless branch: (1/d^2) (d sum_k Gamma_kk - sum_kl Gamma_kl tr C_k tr C_l) *)
-Theorem infidelity_general_entry i j :
+Theorem infidelity_general_prefix_entry i j :
   (i < length idx)%nat -> (j < length idx)%nat -> (is_cross sp = false -> i = j) ->
-  nth (lead_pos sp (length idx) i j) (infidelity_total RO d false na nk no Bm basis idx sp omega) 0 =
+  nth (lead_pos sp (length idx) i j) (infidelity_total_prefix d false na nk no Bm basis idx sp omega) 0 =
   (INR d * trG (Gam i j) - GT (Gam i j)) / (INR d * INR d).
 Proof.
-  intros Hi Hj Hc. unfold infidelity_total. rewrite nth_infid_of_ff by auto.
+  intros Hi Hj Hc. unfold infidelity_total_prefix. rewrite nth_infid_of_ff by auto.
   assert (Hd0 : INR d <> 0) by (apply not_0_INR; lia).
   assert (Hpi : 2 * PI <> 0) by (generalize PI_RGT_0; lra).
   (* right-hand side as one double sum of trapezoid sums *)
@@ -221,7 +366,7 @@ Proof.
       transitivity (cmul' (cdivr RO (spec_at RO sp i j o) (INR d))
         (csumn' n (fun k => csumn' n (fun l =>
            cmul' (cmul' (cconj' (a3get RO Bm (sel idx i) k o)) (a3get RO Bm (sel idx j) l o))
-                 (nth l (nth k (traces_diag_arr RO d P n) []) 0c))))).
+                 (nth l (nth k (traces_diag_arr d P n) []) 0c))))).
       { apply cdivr_swap. }
       rewrite <- csumn_mul_l. apply csumn_ext. intros k Hk.
       rewrite <- csumn_mul_l. apply csumn_ext. intros l Hl.
@@ -232,22 +377,22 @@ Qed.
 
 (* hence: infidelity (non-traceless branch) = - tr K / d^2 with K the cumulant function of the
    same decay amplitudes *)
-Theorem infidelity_general_is_cumulant_trace i j Dl :
+Theorem infidelity_general_prefix_is_cumulant_trace i j Dl :
   (i < length idx)%nat -> (j < length idx)%nat -> (is_cross sp = false -> i = j) ->
-  nth (lead_pos sp (length idx) i j) (infidelity_total RO d false na nk no Bm basis idx sp omega) 0 =
+  nth (lead_pos sp (length idx) i j) (infidelity_total_prefix d false na nk no Bm basis idx sp omega) 0 =
   - sumn' n (fun m => cumulant_general_fn RO n Tr false (Gam i j) Dl m m) / (INR d * INR d).
 Proof.
-  intros. rewrite infidelity_general_entry by auto. rewrite trace_identity. unfold Rdiv. ring.
+  intros. rewrite infidelity_general_prefix_entry by auto. rewrite trace_identity. unfold Rdiv. ring.
 Qed.
 
 (* traceless branch: the excess over - tr K / d^2 *)
-Theorem infidelity_traceless_excess i j Dl :
+Theorem infidelity_traceless_prefix_excess i j Dl :
   (i < length idx)%nat -> (j < length idx)%nat -> (is_cross sp = false -> i = j) ->
-  nth (lead_pos sp (length idx) i j) (infidelity_total RO d true na nk no Bm basis idx sp omega) 0 =
+  nth (lead_pos sp (length idx) i j) (infidelity_total_prefix d true na nk no Bm basis idx sp omega) 0 =
   - sumn' n (fun m => cumulant_general_fn RO n Tr false (Gam i j) Dl m m) / (INR d * INR d)
   + GT (Gam i j) / (INR d * INR d).
 Proof.
-  intros. rewrite infidelity_traceless_entry by auto. rewrite trace_identity.
+  intros. rewrite infidelity_traceless_prefix_entry by auto. rewrite trace_identity.
   assert (Hd0 : INR d <> 0) by (apply not_0_INR; lia). field. auto.
 Qed.
 
